@@ -221,7 +221,7 @@ class Ctx:
         java += ["-cp", TLA_CP, "tlc2.TLC"]
         args = java + ["-config", cfg, "-metadir", os.path.join(rundir, "meta"), "-noGenerateSpecTE"]
         if workers is None:
-            workers = 1 if (dfs or simulate) else max(2, NCPU // 2)
+            workers = 1 if (dfs or simulate) else max(2, NCPU // 4)
         args += ["-workers", str(workers)]
         if simulate:
             args += ["-simulate", simulate]
